@@ -28,6 +28,7 @@ FLOORS = {"statements_compared": 150, "programs_emulated": 10}
 
 HELPERS = '''from guppylang import guppy
 from guppylang.std.builtins import result, array, owned
+from guppylang.std.mem import mem_swap
 
 @guppy.struct
 class P:
@@ -130,7 +131,7 @@ def gen_stmt(rng, k):
         v = rng.choice(['result("r{k}", add3(x, y, 5))', 'result("r{k}", add3(1, x, y))',
                         'result("r{k}", fsum(f, 0.25))', 'result("r{k}", add3(x, add3(y, 1, 2), 3))'])
         return v.replace("{k}", str(k)), "call:pure"
-    if c < 0.975:
+    if c < 0.965:
         return f'bump(xs, x)\n    result("r{k}", xs)', "call:borrow-mutate"
     # containers built inside the body (Python constants / mixed with traced values in comptime
     # mode) lent to a mutating callee more than once, then read.  Traced slots are fresh
@@ -138,6 +139,15 @@ def gen_stmt(rng, k):
     # a traced value that sits in a lent list *and* is referenced elsewhere is updated by the
     # callee's write-back (known finding, probed by the dedicated `aliased` cell below, whose
     # temporaries are private to it so that nothing else in the body can be affected).
+    if c < 0.985:
+        # a whole non-copyable struct (array field + classical field) exchanged by a borrowing call:
+        # afterwards *both* kinds of field must show the other struct's values
+        a1, a2 = rng.randint(1, 9), rng.randint(10, 19)
+        v = rng.choice([
+            f's{k}a = S(array({a1}, 2, 3), {a1})\n    s{k}b = S(array({a2}, 5, 6), {a2})\n    mem_swap(s{k}a, s{k}b)\n    result("r{k}", s{k}a.k * 100 + s{k}b.k + s{k}a.xs[0])',
+            f'u{k}a = x + 0\n    u{k}b = y + 0\n    s{k}a = S(array(u{k}a, 2, 3), {a1})\n    s{k}b = S(array(u{k}b, 5, 6), {a2})\n    mem_swap(s{k}a, s{k}b)\n    bump_s(s{k}a)\n    result("r{k}", s{k}a.xs[0] * 100 + s{k}a.k)',
+        ])
+        return v, "call:whole-struct-exchange"
     if c < 0.993:
         pre, e = [], []
         for j in range(4):
